@@ -22,18 +22,18 @@ P = {
     "C03": ("proof", "Theorems, for every token sequence and payload type: for every validated file with productive nonterminals for which the generator stages succeed, an error stop of the emitted loop over the emitted tables satisfies the three clauses below (C03_every_grammar, via the generator theorem plus: every state's cores are generated from its kernel, every transition target has a kernel item); for every grammar and automaton accepted by the three proved-sound executable validators validB (Sound ∧ Complete), tightB (every item in the closure of its state's kernel, no empty target state) and productiveB, an error stop of the emitted loop has consumed a prefix of some sentence, its lookahead token is the first token that makes the prefix dead, and Err(None) only happens on a proper prefix of a sentence (C03_first_offending); the error is never early for any Complete automaton (C03_not_early); the run up to the error is independent of everything after the lookahead (C03_lookahead_only = nothing beyond the reported token is used); C03_viable. The validators run on the implementation's own machine and table for every generated grammar, and in the kernel on parser.rs (C03_front_end, C03_front_end_first_offending). "
             "Partial: for grammars with unproductive nonterminals the reference is a canonical LR(1) driver (oracle, no theorem); the actual number of iterator pulls of the compiled parser is observed with a counting iterator.",
             "§6.1(3), §7 C03", "first-offending-token theorem over validated automata + compiled-parser correspondence with counting iterator"),
-    "C04": ("proof", "Theorems (every grammar, every automaton handed to machine_to_table): success ⇒ no state has two items demanding different actions on one lookahead column (C04_ok_conflict_free); a reported conflict is such a pair (C04_conflict_genuine); a repeated identical action is not a conflict (C04_setAction_*). "
-            "Partial: 'the automaton is the LALR(1) automaton of the grammar' (§6.3) is not a theorem; the verdict is compared on every generated grammar with conflict-freeness of a specification-side canonical-LR(1)-merged-by-core construction (a different algorithm) and with the model.",
-            "§6.3, §7 C04", "table-level theorems + verdict vs spec-side LALR(1) oracle"),
+    "C04": ("proof", "Theorems: for every validated file, whenever validated_ast_to_machine returns a machine m, machine_to_table either returns a table and m has no pair of items demanding different actions on one lookahead column, or reports a conflict that is such a pair — there is no third outcome (no panic), so a parser is emitted iff the generated automaton is conflict-free (C04_emitted_iff_conflict_free, from the generator invariants MachineOK + Proofs/NoPanic); for any automaton: C04_ok_conflict_free, C04_conflict_genuine, C04_setAction_*. The generated automaton is proved to be a valid LR automaton with one state per core (generator theorem, C01). "
+            "Partial: exactness of its lookahead sets ('it is *the* LALR(1) automaton', §6.3) is not a theorem; the verdict is compared on every generated grammar with conflict-freeness of a specification-side canonical-LR(1)-merged-by-core construction (a different algorithm) and with the model.",
+            "§6.2, §6.3, §7 C04", "emitted-iff-conflict-free theorem on the generated automaton + verdict vs spec-side LALR(1) oracle"),
     "C05": ("proof", "A theorem cannot say 'rustc accepts'. Proved: every internal name chosen by create_unique_identifier is fresh w.r.t. all names in use and is recorded (C05_fresh). "
             "The emitted text is byte-equal to the model's rendering; rustc type-checks the emitted module for adversarial namings (generator-internal names, S, Eof, numeric-suffix neighbours, letterless names) with derive-less payload types. Known finding: zero-variant terminal enum.",
             "§7 C05, §12", "freshness theorem + rustc on adversarial namings"),
     "C06": ("proof", "Theorem: one public item per nonterminal with the declared name, in declaration order, struct for struct / enum for enum; the parse signature names the start type and the terminal enum (C06_items_and_signature). "
             "Field-level mirroring (Box<N>, payload types, `_` dropped, pub, unit-like collapse) is checked by reading the emitted text back and comparing with the declaration→Rust mapping of the property, and by byte equality with the model's rendering.",
             "§7 C06", "structure theorem + reader oracle on emitted text"),
-    "C07": ("proof", "Proved: the tokenizer never panics on any text (it equals the total scanner specification: C08_tokenize_total), the front-end parser never panics on any token list (C09_parse_correct); bracket scan and main-state handler (C07 module). "
-            "Partial: no-panic for validation→emission and the termination bounds are not theorems; every stage runs under catch_unwind with a watchdog (and generate() in child processes) on valid, mutated, malformed and size-bound inputs; the model's panics are explicit (Res.panic at every unwrap/slice/index site) and its outcome class is compared.",
-            "§7 C07", "partial no-panic theorems + catch_unwind/watchdog correspondence"),
+    "C07": ("proof", "Proved, stage by stage, for every input: the tokenizer never panics on any text (it equals the total scanner specification: C08_tokenize_total); the front-end parser never panics on any token list (C09_parse_correct) and cst_to_ast is total on every CST it returns (C07_cst_to_ast_total); validation has no panicking path (C07_validate_no_panic); once the grammar is coded, validated_ast_to_machine never hits a FIRST-map unwrap or index_map[i] failure and machine_to_table never hits rules[i], get_shift_dest(..).unwrap(), the 'Impossible: goto conflict' or a table index out of range (C07_generator_no_panic, from the generator invariants). "
+            "Partial: termination (the model's loops take fuel; FIRST fixpoint and worklist bounds are not theorems), Encode/text-emission unwraps after validation (get_type, unique names) and the parse-error slice are covered by the correspondence only: every stage runs under catch_unwind with a watchdog (and generate() in child processes) on valid, mutated, malformed and size-bound inputs; the model's panics are explicit (Res.panic at every unwrap/slice/index site) and its outcome class is compared.",
+            "§7 C07", "per-stage no-panic theorems + catch_unwind/watchdog correspondence"),
     "C08": ("proof", "Full for the tokenizer: for every source text, the character state machine of tokenize.rs (model with explicit byte indices and source slices) = the scanner specification Spec.scan, which states the documented rules with explicit maximal munch and a bracket stack: same tokens, payloads and byte positions, or the same Lex(index, char?) (C08_tokenize_eq_spec; ≈ 900 lines of proof). Spec is total and only reports Lex (C08_scan_total); `::` is always one token. "
             "The implementation is compared with scan and with the model on every generated text and on single-character probes over all scalars < U+3100 (all scalars in thorough).",
             "§0, §7 C08", "tokenize = scanner-specification theorem + three-way differential"),
